@@ -127,9 +127,13 @@ static FWire c16(Reader& r,FReader& f) {
         for (size_t k=0;k<n;++k) {
             Vect3 a=getV(f), b=getV(f);
             unsigned ia=vs.size(); vs.push_back(a); unsigned ib=vs.size(); vs.push_back(b);
-            ts.push_back(rot[k]==0 ? TriangleIndices(0,ia,ib) : rot[k]==1 ? TriangleIndices(ib,0,ia) : TriangleIndices(ia,ib,0));
+            const ll rk=rot[k]%3;
+            ts.push_back(rk==0 ? TriangleIndices(0,ia,ib) : rk==1 ? TriangleIndices(ib,0,ia) : TriangleIndices(ia,ib,0));
         }
         TMesh tm(vs,ts);
+        // codes 3..5: the triangle is flipped AFTER the last Mesh::update (Triangle::change_orientation, as Mesh::change_orientation /
+        // correct_global_orientation do): cached normal and area are those of the old vertex order
+        for (size_t k=0;k<n;++k) if (rot[k]>=3) tm.m.triangles()[k].change_orientation();
         putV(o,Details::operatorFerguson(x,tm.V(0),tm.m));
         if (op==22) {       // reference: sum over the fan of  int_T  grad(phi_V)(y) x n / |x-y| dy
             double tot[3]={0,0,0}; double err=0;
@@ -138,7 +142,8 @@ static FWire c16(Reader& r,FReader& f) {
                 // gradient of the hat function of V on (V,A,B): along the height from the edge AB to V, length 1/height
                 const Vect3 e=B-A; const Vect3 fA=v-A; const Vect3 h=fA-(dotprod(fA,e)/e.norm2())*e;   // height vector
                 const Vect3 grad=h/h.norm2();
-                Vect3 nn=crossprod(A-v,B-v); nn=nn/nn.norm();
+                const Triangle& Tk=tm.m.triangles()[k];
+                Vect3 nn=crossprod(Tk.vertex(1)-Tk.vertex(0),Tk.vertex(2)-Tk.vertex(0)); nn=nn/nn.norm();   // current stored order
                 const Vect3 nxg=crossprod(grad,nn);   // grad(phi_V) x n
                 auto fn=[&](const Vect3& y,double* val){ const double rr=(x-y).norm(); val[0]=nxg.x()/rr; val[1]=nxg.y()/rr; val[2]=nxg.z()/rr; };
                 double out[3]; err+=reference<3>(fn,v,A,B,3,out);
@@ -153,7 +158,8 @@ static FWire c16(Reader& r,FReader& f) {
             double tot[3]={0,0,0}; double err=0;
             for (size_t k=0;k<n;++k) {
                 const Vect3 A=vs[1+2*k], B=vs[2+2*k];
-                const Vect3 nn0=crossprod(A-v,B-v); const double A2=nn0.norm(); const Vect3 nn=nn0/A2;
+                const Triangle& Tk=tm.m.triangles()[k];
+                const Vect3 nn0=crossprod(Tk.vertex(1)-Tk.vertex(0),Tk.vertex(2)-Tk.vertex(0)); const double A2=nn0.norm(); const Vect3 nn=nn0/A2;
                 auto fn=[&](const Vect3& y,double* val){
                     const double phi=crossprod(A-y,B-y).norm()/A2;
                     const Vect3 d=x-y; const double rr=d.norm(); const Vect3 w=crossprod(nn,d)*(phi/(rr*rr*rr));
@@ -193,6 +199,26 @@ static FWire c16(Reader& r,FReader& f) {
             Vect3 r0=getV(f),q=getV(f); const Dipole dip(r0,q); const analyticDipPotDer an(dip,tm.T());
             const auto fn=[&](const Vect3& v){ return an.f(v); };
             const Vect3 res=I.integrate(fn,tm.T()); putV(o,res);
+        }
+        return o; }
+    case 13: {   // Integrator built through EVERY constructor overload: 1 (ord) | 2 (ord,tol) | 3 (ord,levels) | 4 (ord,levels,tol)
+        ll ctor=r.z(), ord=r.z(), depth=r.z(), kind=r.z();
+        double tol=f.x(); Vect3 t0=getV(f),t1=getV(f),t2=getV(f); Vect3 r0=getV(f),q=getV(f);
+        TMesh tm=one(t0,t1,t2); const Dipole dip(r0,q);
+        const Integrator I = ctor==1 ? Integrator((unsigned)ord) : ctor==2 ? Integrator((unsigned)ord,tol)
+                           : ctor==3 ? Integrator((unsigned)ord,(unsigned)depth) : Integrator((unsigned)ord,(unsigned)depth,tol);
+        // the documented meaning of the short forms, spelled out with the three-argument constructor
+        const Integrator J = ctor==1 ? Integrator((unsigned)ord,0u,0.0) : ctor==2 ? Integrator((unsigned)ord,10u,tol)
+                           : ctor==3 ? Integrator((unsigned)ord,(unsigned)depth,0.0001) : Integrator((unsigned)ord,(unsigned)depth,tol);
+        o.z.push_back((ll)I.order); o.z.push_back((ll)I.max_depth);
+        o.f.push_back(I.tolerance);
+        if (kind==1) {
+            const auto fn=[&](const Vect3& v){ return dip.potential(v); };
+            o.f.push_back(I.integrate(fn,tm.T())); o.f.push_back(J.integrate(fn,tm.T()));
+        } else {
+            const analyticDipPotDer an(dip,tm.T());
+            const auto fn=[&](const Vect3& v){ return an.f(v); };
+            putV(o,I.integrate(fn,tm.T())); putV(o,J.integrate(fn,tm.T()));
         }
         return o; }
     case 10: {   // the table as the compiler sees it
